@@ -83,22 +83,29 @@ Lemma set_step lo m hi k : bracket lo m hi ->
   (fst (set_locked k m) = false -> snd (set_locked k m) = m).
 Proof.
   intros (A & B & C). destruct (set_locked_ack k m) as [E|E]; rewrite E; cbn [fst snd].
-  - repeat split; try discriminate.
-    + destruct A as [A1 A2]. destruct (sub_ack_set_r k lo m (conj A1 A2)) as [X Y]. split; assumption.
-    + now apply sub_ack_set_both.
-    + now apply ack_set_nwp.
-    + intros _. repeat split; try (now apply sub_ack_set_both); try (apply sub_ack_set_both; exact B).
-      now apply ack_set_nwp.
-  - repeat split; try discriminate; try exact A; try exact C; try reflexivity.
-    now apply sub_ack_set_r.
+  - split; [|split].
+    + split; [|split].
+      * now apply sub_ack_set_r.
+      * now apply sub_ack_set_both.
+      * now apply ack_set_nwp.
+    + intros _. split; [|split].
+      * now apply sub_ack_set_both.
+      * now apply sub_ack_set_both.
+      * now apply ack_set_nwp.
+    + discriminate.
+  - split; [|split].
+    + split; [exact A|split; [now apply sub_ack_set_r|exact C]].
+    + discriminate.
+    + reflexivity.
 Qed.
 
 Lemma remove_step lo m hi k : bracket lo m hi ->
   bracket (ack_remove k lo) (snd (remove_locked k m)) (ack_remove k hi).
 Proof.
-  intros (A & B & C). rewrite (remove_locked_ack k m C). repeat split;
-    try (now apply sub_ack_remove_both); try (apply sub_ack_remove_both; assumption).
-  now apply ack_remove_nwp.
+  intros (A & B & C). rewrite (remove_locked_ack k m C). split; [|split].
+  - now apply sub_ack_remove_both.
+  - now apply sub_ack_remove_both.
+  - now apply ack_remove_nwp.
 Qed.
 
 (* ---- batches *)
@@ -274,7 +281,7 @@ Proof.
   intros H h b1 lo hi. destruct (ack_bracket_lemma b0 ops H) as (A & B & _).
   destruct (ack_fold_bw h (b0, b0)) as [Wlo Whi]. cbn [fst snd] in Wlo, Whi.
   pose proof (run_hist_bw ops b0) as W1.
-  repeat split.
+  split; [|split].
   - intros q. apply sub_blocks; [exact A|]. unfold lo, ack_lists. fold h. fold b1 in W1. congruence.
   - intros q. apply sub_blocks; [exact B|]. unfold hi, ack_lists. fold h. fold b1 in W1. congruence.
   - intros F. unfold lo, hi, ack_lists. now apply ack_exact_lemma.
